@@ -5,4 +5,8 @@ import Resvg.Props.C07
 #print axioms Resvg.Props.C07.C07_attr_wellformed
 #print axioms Resvg.Props.C07.C07_attr_roundtrip
 #print axioms Resvg.Props.C07.C07_old_writer_illformed
+#print axioms Resvg.Props.C07.wfText_cons_other
+#print axioms Resvg.Props.C07.writeTextValue_cons
+#print axioms Resvg.Props.C07.C07_text_wellformed
 #print axioms Resvg.Props.C07.C07_references_resolve_partial
+#print axioms Resvg.Props.C07.C07_escape_attr_source_is_model
